@@ -35,9 +35,10 @@ var c03Sigs = map[string][]string{
 		"true <= !(public-types.StreamType).IsResponseType((public-types.APIStreamI).GetType(param:APIStream)) ; (builtin.len((public-types.FilterI).GetAllowedHeaders((internal-types.FlowI).GetFilter(param:flow))) == 0)",
 		"true <= (public-types.StreamType).IsResponseType((public-types.APIStreamI).GetType(param:APIStream))",
 	},
-	"isStatusCodeQualified": {
-		"false <= !(builtin.len((public-types.FilterI).GetAllowedStatusCodes((internal-types.FlowI).GetFilter(param:flow))) == 0) ; !(public-types.StreamType).IsRequestType((public-types.APIStreamI).GetType(param:APIStream))",
-		"true <= !(builtin.len((public-types.FilterI).GetAllowedStatusCodes((internal-types.FlowI).GetFilter(param:flow))) == 0) ; !(public-types.StreamType).IsRequestType((public-types.APIStreamI).GetType(param:APIStream)) ; ((public-types.FilterI).GetAllowedStatusCodes((internal-types.FlowI).GetFilter(param:flow))[i] == (public-types.TransactionI).GetStatus((public-types.APIStreamI).GetResponse(param:APIStream)))",
+	"isStatusCodeQualified": { // reviewed again after fix 129ad79: an absent response does not qualify
+		"false <= !(builtin.len((public-types.FilterI).GetAllowedStatusCodes((internal-types.FlowI).GetFilter(param:flow))) == 0) ; !(public-types.StreamType).IsRequestType((public-types.APIStreamI).GetType(param:APIStream)) ; !utils.IsInterfaceNil((public-types.APIStreamI).GetResponse(param:APIStream))",
+		"false <= !(builtin.len((public-types.FilterI).GetAllowedStatusCodes((internal-types.FlowI).GetFilter(param:flow))) == 0) ; !(public-types.StreamType).IsRequestType((public-types.APIStreamI).GetType(param:APIStream)) ; utils.IsInterfaceNil((public-types.APIStreamI).GetResponse(param:APIStream))",
+		"true <= !(builtin.len((public-types.FilterI).GetAllowedStatusCodes((internal-types.FlowI).GetFilter(param:flow))) == 0) ; !(public-types.StreamType).IsRequestType((public-types.APIStreamI).GetType(param:APIStream)) ; !utils.IsInterfaceNil((public-types.APIStreamI).GetResponse(param:APIStream)) ; ((public-types.FilterI).GetAllowedStatusCodes((internal-types.FlowI).GetFilter(param:flow))[i] == (public-types.TransactionI).GetStatus((public-types.APIStreamI).GetResponse(param:APIStream)))",
 		"true <= !(public-types.StreamType).IsRequestType((public-types.APIStreamI).GetType(param:APIStream)) ; (builtin.len((public-types.FilterI).GetAllowedStatusCodes((internal-types.FlowI).GetFilter(param:flow))) == 0)",
 		"true <= (public-types.StreamType).IsRequestType((public-types.APIStreamI).GetType(param:APIStream))",
 	},
@@ -78,6 +79,9 @@ var c03Sigs = map[string][]string{
 }
 
 func runC03(w *World, r *Report) {
+	hrHeaderValueMatch(w, r, "R4")
+	hrSplitURLKeepsEmptyParts(w, r, "R7")
+	hrParseHeaders(w, r, "R4")
 	hrFilterResultGetters(w, r, "R9")
 	hrGetHeader(w, r, "R4") // header constraints of a filter are looked up case-insensitively
 	names := []string{"isFlowValid", "validate", "validateExpr", "isHeadersQualified", "isStatusCodeQualified", "isMethodQualified", "isQueryParamsQualified", "isHeaderValueValid"}
